@@ -62,9 +62,13 @@ Variables C Pf D DOCS V M : Type.
    V value part of the output (stdout bytes + error class), M message part (error text) *)
 
 Variable parse_core : N -> C.                 (* expression id -> operator tree without the Type strings *)
+Variable parse_fails : N -> bool.             (* ParseExpression returns an error (after lexing the tokens in env_toks) *)
+Variable parse_err : N -> V.                  (* ... this one *)
+Variable parse_msg : N -> M.
 Variable env_toks : N -> list etok.           (* its envsubst tokens, in order *)
 Variable dec_sem : fmt -> bool -> D -> DOCS.  (* decode a whole stream; the bool: leading content pre-processed *)
 Variable dec_eof : DOCS.                      (* a decoder that reports EOF at once: no documents *)
+Variable dec_fails : fmt -> D -> bool.        (* the stream ends in a decode error (then `finished` is not set) *)
 Variable sem : C -> Pf -> DOCS -> V.          (* evaluate + print: value part *)
 Variable msg : C -> Pf -> DOCS -> list str -> str -> M.   (* message part: may show Operation.Value copies and the global Type *)
 Variable default_prefs : Pf.
@@ -126,19 +130,12 @@ Definition decode_run (fixinit : bool) (f : fmt) (together : bool) (d : dstate) 
   let pre := match f with FYaml => negb together || d_first_file d | _ => true end in
   let d1 := init fixinit f d in
   if d_finished d1 then (d1, dec_eof)
-  else (mkD true true (d_first_file d1), dec_sem f pre text).
+  else (mkD (negb (dec_fails f text)) true (d_first_file d1), dec_sem f pre text).
 
 Definition output : Type := V * M.
 
-Definition step (fixinit : bool) (g : G) (x : request) : G * output :=
-  (* configuration, as cmd does from the flags *)
-  let pf := match q_prefs x with Some p => p | None => g_prefs g end in
-  (* the tree: kept one, or a new parse *)
-  let '(g1, t, keep) :=
-    match (if q_reuse_tree x then find_tree (q_expr x) (g_trees g) else None) with
-    | Some t => (g, t, true)
-    | None => let '(g', t) := parse g (q_expr x) in (g', t, q_reuse_tree x)
-    end in
+(* everything after the tree is available *)
+Definition eval_with (fixinit : bool) (g1 : G) (pf : Pf) (x : request) (t : tree) (keep : bool) : G * output :=
   (* the decoder *)
   let d := if q_reuse_dec x then g_dec g1 (q_fmt x) (q_together x) else d_new in
   let '(d', docs) := decode_run fixinit (q_fmt x) (q_together x) d (q_text x) in
@@ -148,6 +145,20 @@ Definition step (fixinit : bool) (g : G) (x : request) : G * output :=
   let decs := if q_reuse_dec x then (fun f b => if fmt_eqb f (q_fmt x) && Bool.eqb b (q_together x) then d' else g_dec g1 f b) else g_dec g1 in
   let trees := if keep then store_tree (q_expr x) t' (g_trees g1) else g_trees g1 in
   (mkG (g_type g1) decs trees pf (q_xml_lead x), o).
+
+Definition step (fixinit : bool) (g : G) (x : request) : G * output :=
+  (* configuration, as cmd does from the flags *)
+  let pf := match q_prefs x with Some p => p | None => g_prefs g end in
+  (* the tree: kept one, or a new parse *)
+  match (if q_reuse_tree x then find_tree (q_expr x) (g_trees g) else None) with
+  | Some t => eval_with fixinit g pf x t true
+  | None =>
+      let '(g', t) := parse g (q_expr x) in
+      if parse_fails (q_expr x) then
+        (* the lexer has run (and written the Type); no decoder, tree or encoder is touched *)
+        (mkG (g_type g') (g_dec g) (g_trees g) pf (g_xml_lead g), (parse_err (q_expr x), parse_msg (q_expr x)))
+      else eval_with fixinit g' pf x t (q_reuse_tree x)
+  end.
 
 Fixpoint run (fixinit : bool) (g : G) (h : list request) : G * list output :=
   match h with
@@ -161,6 +172,7 @@ Definition last_out (fixinit : bool) (h : list request) (x : request) : output :
 
 (* what the same request yields when it is the first thing a process does *)
 Definition spec_value (x : request) : V :=
+  if parse_fails (q_expr x) then parse_err (q_expr x) else
   sem (parse_core (q_expr x)) (match q_prefs x with Some p => p | None => default_prefs end)
       (dec_sem (q_fmt x) true (q_text x)).
 
@@ -235,7 +247,7 @@ Arguments mkReq {Pf D}. Arguments q_expr {Pf D}. Arguments q_reuse_tree {Pf D}. 
 Arguments q_text {Pf D}. Arguments q_together {Pf D}. Arguments q_reuse_dec {Pf D}. Arguments q_prefs {Pf D}.
 Arguments q_xml_lead {Pf D}.
 Arguments find_tree {C}. Arguments store_tree {C}. Arguments parse {C Pf}.
-Arguments decode_run {D DOCS}. Arguments step {C Pf D DOCS V M}. Arguments run {C Pf D DOCS V M}.
+Arguments decode_run {D DOCS}. Arguments eval_with {C Pf D DOCS V M}. Arguments step {C Pf D DOCS V M}. Arguments run {C Pf D DOCS V M}.
 Arguments last_out {C Pf D DOCS V M}. Arguments spec_value {C Pf D DOCS V}.
 Arguments mkSh {D}. Arguments sh_type {D}. Arguments sh_load {D}.
 Arguments ASetType {D}. Arguments AAppendType {D}. Arguments AReadType {D}. Arguments ALoadInit {D}.
